@@ -160,3 +160,56 @@ Definition donna_mac (key msg : list N) : list N :=
            then donna_block r 0 h (rest ++ [1%N] ++ zeros (16 - length rest - 1))
            else h in
   donna_finish h (donna_pad key).
+
+(* ---------------- the incremental interface on limbs ----------------
+   The same poly1305_init / poly1305_update / poly1305_finish as in model/CryptoPoly1305.v (see the C++
+   quoted there), with r, h, pad held in limbs as in the C++ struct and poly1305_blocks = donna_blocks. *)
+Record donna_ctx : Type :=
+  { d_r : limbs; d_h : limbs; d_pad : Z * Z * Z * Z; d_leftover : nat; d_buffer : list N; d_final : bool }.
+
+Definition donna_init (uninitialised_buffer : list N) (key : list N) : donna_ctx :=
+  {| d_r := donna_r key; d_h := (0, 0, 0, 0, 0); d_pad := donna_pad key; d_leftover := 0;
+     d_buffer := uninitialised_buffer; d_final := false |}.
+
+Definition donna_ctx_blocks (st : donna_ctx) (m : list N) (bytes : nat) : donna_ctx :=
+  {| d_r := d_r st;
+     d_h := donna_blocks (bytes / 16) (d_r st) (if d_final st then 0 else 2 ^ 24) (d_h st) m;
+     d_pad := d_pad st; d_leftover := d_leftover st; d_buffer := d_buffer st; d_final := d_final st |}.
+
+Definition donna_set_leftover (st : donna_ctx) (buf : list N) (lo : nat) : donna_ctx :=
+  {| d_r := d_r st; d_h := d_h st; d_pad := d_pad st; d_leftover := lo; d_buffer := buf; d_final := d_final st |}.
+
+Definition donna_update_tail (st : donna_ctx) (m : list N) : donna_ctx :=
+  let bytes := length m in
+  let '(st2, m2) :=
+    if (16 <=? bytes)%nat then
+      let want := (bytes / 16 * 16)%nat in
+      (donna_ctx_blocks st m want, skipn want m)
+    else (st, m) in
+  if (0 <? length m2)%nat then
+    donna_set_leftover st2 (memcpy (d_buffer st2) (d_leftover st2) m2) (d_leftover st2 + length m2)
+  else st2.
+
+Definition donna_update (st : donna_ctx) (m : list N) : donna_ctx :=
+  let bytes := length m in
+  if negb (d_leftover st =? 0)%nat then
+    let want := Nat.min (16 - d_leftover st) bytes in
+    let buf' := memcpy (d_buffer st) (d_leftover st) (firstn want m) in
+    let lo' := (d_leftover st + want)%nat in
+    if (lo' <? 16)%nat then donna_set_leftover st buf' lo'
+    else
+      let st1 := donna_ctx_blocks (donna_set_leftover st buf' lo') buf' 16 in
+      donna_update_tail (donna_set_leftover st1 buf' 0) (skipn want m)
+  else donna_update_tail st m.
+
+(* poly1305_finish: if (st->leftover) { buffer[leftover] = 1; zero the rest; st->final = 1; poly1305_blocks(st, buffer, 16); } ... *)
+Definition donna_ctx_finish (st : donna_ctx) : list N :=
+  let h :=
+    if negb (d_leftover st =? 0)%nat then
+      let buf' := firstn (d_leftover st) (d_buffer st) ++ [1%N] ++ zeros (16 - d_leftover st - 1) in
+      donna_block (d_r st) 0 (d_h st) buf'
+    else d_h st in
+  donna_finish h (d_pad st).
+
+Definition donna_stream (ubuf key : list N) (chunks : list (list N)) : list N :=
+  donna_ctx_finish (fold_left donna_update chunks (donna_init ubuf key)).
